@@ -32,7 +32,9 @@ func verifGenuine(x *mc.X, ki, ui, ni int) c34ref.Record {
 	nid := c34ref.NetworkIDs[ni]
 	ov, err := crypto.NewOverlayAddress(priv.PublicKey, nid)
 	x.NoErr(err, "NewOverlayAddress")
-	if !bytes.Equal(ov.Bytes(), c34ref.OverlayOf(c34ref.PublicKey(ki))) {
+	if ki == 0 && !bytes.Equal(ov.Bytes(), c34ref.OverlayOf(c34ref.PublicKey(ki))) {
+		// sanity anchor on an ordinary key only; for every key the comparison is a
+		// property check in the unmutated execution
 		x.Broken("reference overlay derivation disagrees with crypto.NewOverlayAddress for key %d", ki)
 	}
 	u, err := ma.NewMultiaddr(c34ref.Underlays[ui])
@@ -45,28 +47,33 @@ func verifGenuine(x *mc.X, ki, ui, ni int) c34ref.Record {
 }
 
 func TestVerifC34Aurora(t *testing.T) {
+	if c34ref.InitErr != nil {
+		t.Fatalf("BROKEN-CHECK %v", c34ref.InitErr)
+	}
+	nk := len(c34ref.Keys)
 	type base struct {
 		rec c34ref.Record
 		ops []c34ref.Op
 	}
 	memo := map[int]*base{}
 	mc.Run(t, mc.Config{ID: "C34", Name: "C34-aurora-parseaddress", MaxDev: -1, Params: map[string]interface{}{
-		"keys":        "3 fixed secp256k1 keys",
+		"keys":        c34ref.KeyNames,
+		"combos":      "keys x underlays x network ids; per-byte mutations on the combos with network index = (key+underlay) mod 3 (quick) / all (thorough); every other operator on all combos",
 		"underlays":   c34ref.Underlays,
 		"network_ids": []string{"0", "1", "2^64-1"},
 		"mutations":   "every byte of underlay, overlay, signature xor 0x01 / xor 0x80; signature header byte := {v+4, other recovery id, other+4, 0, 26, 35}; verifier network id := each other alphabet value and id^1, id^2^8, id^2^63; each field shortened by one byte / extended by a zero byte / empty; underlay|overlay boundary shifted by one byte in both directions (same signed byte string); overlay of each other key; signature of each other key over the same underlay",
 	}}, func(x *mc.X) {
-		combo := x.Choose(27)
+		combo := x.Choose(nk * 9)
 		ki, ui, ni := combo/9, (combo/3)%3, combo%3
 		b := memo[combo]
 		if b == nil {
 			b = &base{rec: verifGenuine(x, ki, ui, ni)}
-			b.ops = c34ref.Ops(b.rec, ki, true)
+			b.ops = c34ref.Ops(b.rec, ki, mc.Thorough() || ni == (ki+ui)%3)
 			memo[combo] = b
 		}
 		op := b.ops[verifChooseIdx(x, len(b.ops))]
 		m, field := c34ref.Apply(b.rec, op, func(k int) []byte { return verifGenuine(x, k, ui, ni).Signature })
-		x.Logf("key %d underlay %s network %d: %s (%s)", ki, c34ref.Underlays[ui], b.rec.NetworkID, field, op)
+		x.Logf("key %d ["+c34ref.KeyNames[ki]+"] underlay %s network %d: %s (%s)", ki, c34ref.Underlays[ui], b.rec.NetworkID, field, op)
 
 		var a *Address
 		var err error
@@ -75,6 +82,12 @@ func TestVerifC34Aurora(t *testing.T) {
 		}
 		want, why := c34ref.Accept(m)
 		x.Logf("ParseAddress err=%v; reference accepts=%v %s", err, want, why)
+		if op.Kind == c34ref.OpNone {
+			x.Check(bytes.Equal(m.Overlay, c34ref.OverlayOf(c34ref.PublicKey(ki))), "overlay-is-not-the-keys-overlay", "crypto.NewOverlayAddress gives %x for key %d [%s], SHA3-256(keccak256(X||Y)) is %x", m.Overlay, ki, c34ref.KeyNames[ki], c34ref.OverlayOf(c34ref.PublicKey(ki)))
+			if ki >= 3 {
+				x.Tag("boundary-key-own-record")
+			}
+		}
 		x.Check(err != nil || want, "accepts-unauthenticated-"+field, "ParseAddress accepted a record the reference rejects (%s): %s", field, why)
 
 		if op.Kind == c34ref.OpNone {
